@@ -3,6 +3,7 @@
 //! lock and is killed.
 
 use std::collections::BTreeMap;
+use std::future::Future;
 use std::io::{BufRead, BufReader, Write};
 use std::process::{Command, Stdio};
 
@@ -170,7 +171,47 @@ fn in_process(plan: &Plan) -> Judged {
 					5..=7 => {
 						// close
 						if let Some(t) = slots[i].take() {
-							if let Err(e) = t.close().await {
+							// close() is driven by hand: between its polls (it waits for the
+							// background tasks) another open is attempted - while the closing
+							// instance is still working on its files it must be refused
+							let was_holder = holder == Some(i);
+							let probe_mid_close = was_holder && rng.chance(1, 2);
+							let res = {
+								struct NoWake;
+								impl std::task::Wake for NoWake {
+									fn wake(self: std::sync::Arc<Self>) {}
+								}
+								let waker = std::task::Waker::from(std::sync::Arc::new(NoWake));
+								let mut cx = std::task::Context::from_waker(&waker);
+								let mut fut = Box::pin(t.close());
+								let mut polls = 0u32;
+								loop {
+									if let std::task::Poll::Ready(r) = fut.as_mut().poll(&mut cx) {
+										break r;
+									}
+									polls += 1;
+									if probe_mid_close && polls <= 2 {
+										let from = ip::op_count();
+										let r2 = open_store(&opts, &dir);
+										let ops = ip::ops_since(from);
+										j.count("open_attempts_during_close", 1);
+										if r2.is_ok() {
+											fail(&mut j, "double_open", format!("step {}: the directory was opened while opener {} was still inside close()", step, i));
+											return;
+										}
+										if let Err(d) = only_lock_touched(&ops) {
+											fail(&mut j, "refused_open_touched_data", format!("step {}: open attempt during close(): {}", step, d));
+											return;
+										}
+									}
+									tokio::task::yield_now().await;
+									tokio::time::advance(std::time::Duration::from_millis(60)).await;
+									if polls > 2000 {
+										break Err(surrealkv::Error::Other("close() did not finish".into()));
+									}
+								}
+							};
+							if let Err(e) = res {
 								fail(&mut j, "close_failed", e.to_string());
 								return;
 							}
